@@ -50,6 +50,14 @@ func runC07(c *core.Ctx) {
 			continue
 		}
 		errorBranchRule(c, s, es.errIdx)
+		if es.pkg == "pipe" && es.name == "Unfold" {
+			// "exactly the results of the elements before the first failure": the seed is delivered before the step
+			// that may fail is applied to it (shared with C11)
+			if c.Rules["unfold-step"] == nil {
+				c.Doc("unfold-step", 1, "send(out, seed) precedes the single Apply(seed); the result becomes the next seed")
+			}
+			unfoldStep(c, s)
+		}
 		exxProvenance(c, "C07", s)
 		if es.pkg == "pipe" {
 			stageLifecycleRules(c, s, lifecycleOpts{only: "closing"})
@@ -244,7 +252,8 @@ func pureNeverFails(c *core.Ctx, pkg string) {
 		c.Undecided("pure-never-fails", name, fn.Pos(), "Pure is not a single path returning the wrapped closure")
 		return
 	}
-	ian := c.AnalyzeFrom(clT.Fn, ir.NewRootState(clT.Fn, nil, clT.Args, ps[0].End), "closure-of-"+name)
+	// the closure is called once per element: what it left in its captured variables on an earlier call is unknown
+	ian := c.AnalyzeFrom(clT.Fn, ir.ReentrantState(clT.Fn, clT.Args, ps[0].End), "closure-of-"+name)
 	ips := ian.AllPaths()
 	ok := len(ian.Problems) == 0 && len(ips) == 1 && len(ips[0].Results) == 2 && len(calls(ips[0])) == 1
 	why := "closure is not a single call"
@@ -348,6 +357,23 @@ func errorBranchRule(c *core.Ctx, s *Stage, errIdx int) {
 				case res < 0 && p.Exit != ir.ExitReturn:
 					ok = false
 					c.Fail("error-branch", s.Name, ct.Pos(), "catch returned false (stop) but the stage continues:\n%s", p)
+				case res < 0:
+					// stop means stop: nothing further is received, sent, started or called before the stage leaves
+					// (its deferred closes excepted) - "closes both channels without processing anything further"
+					for j := catches[0] + 1; j < len(p.Steps); j++ {
+						st := &p.Steps[j]
+						if st.InDefer {
+							continue
+						}
+						switch st.Kind {
+						case ir.KRecv, ir.KSend, ir.KSelect, ir.KGo, ir.KCall:
+							if st.Kind == ir.KCall && isWgDone(st) {
+								continue
+							}
+							ok = false
+							c.Fail("error-branch", s.Name, st.Pos(), "after catch returned false (stop) the stage goes on working before it leaves - it must close its channels without processing anything further:\n%s", p)
+						}
+					}
 				}
 			}
 		}
